@@ -390,6 +390,7 @@ func c05Record(c *Ctx, emitRow *ssa.Function, t *taintCtx) {
 		}
 		r.Check("R05.4", name, "a row with more cells than columns is refused before anything is written", emitRow.Pos(), ok, "")
 	}
+	c05SeparatorAfterField(c, emitRow, cells, t)
 	var inLoop, after []*writeSite
 	for _, s := range sites {
 		if loopDepth(s.Call.(ssa.Instruction).Block()) > 0 {
@@ -1442,4 +1443,152 @@ func fieldKindKey(fa *ssa.FieldAddr) string {
 		t = pt.Elem()
 	}
 	return fmt.Sprintf("fieldkind:%s:%d", types.TypeString(t, nil), fa.Field)
+}
+
+// c05SeparatorAfterField: a record must not begin with the separator. Every write whose data begins with the
+// separator (sep + x, strings.Repeat(sep + x, k)) must sit where a field is known to have been written already:
+// under a test that a counting index is past zero, or where the row is known to have a cell. Decided for the
+// record emitter and the package helpers it hands its writer to; a guard that is a boolean flag rather than
+// arithmetic is not followed (NOTE).
+func c05SeparatorAfterField(c *Ctx, emitRow *ssa.Function, cells *ssa.Parameter, t *taintCtx) {
+	r := c.R
+	fns := []*ssa.Function{emitRow}
+	for _, h := range pkgReach(emitRow, 1)[1:] {
+		if len(writerValues(h)) > 0 {
+			fns = append(fns, h)
+		}
+	}
+	for _, g := range emitRow.AnonFuncs {
+		fns = append(fns, g)
+	}
+	n := 0
+	for _, fn := range fns {
+		p := c.Idx().proverFor(fn)
+		isSep := func(v ssa.Value) bool {
+			if f, _ := loadedField(v); f != nil && isStringType(f.Type()) && !t.fieldTainted(f) {
+				return true
+			}
+			if sv, ok := constString(v); ok && sv != "" && !strings.HasPrefix(sv, "\"") && !strings.ContainsAny(sv, "\r\n") {
+				return true
+			}
+			return false
+		}
+		var leadingSep func(v ssa.Value, d int) bool
+		leadingSep = func(v ssa.Value, d int) bool {
+			if d > 6 {
+				return false
+			}
+			switch x := v.(type) {
+			case *ssa.BinOp:
+				if x.Op == token.ADD && isStringType(x.Type()) {
+					return isSep(x.X) || leadingSep(x.X, d+1)
+				}
+			case *ssa.Call:
+				if isFunc(x.Call.StaticCallee(), "strings", "Repeat") {
+					return isSep(x.Call.Args[0]) || leadingSep(x.Call.Args[0], d+1)
+				}
+			}
+			return false
+		}
+		counting := func(v ssa.Value) bool {
+			v = p.resolve(v)
+			if call, ok := isBuiltinCall(v, "len"); ok {
+				return cells != nil && fn == emitRow && p.resolve(call.Call.Args[0]) == ssa.Value(cells)
+			}
+			isHdrPhi := func(x ssa.Value) bool {
+				phi, ok := x.(*ssa.Phi)
+				if !ok || !isIntType(phi.Type()) {
+					return false
+				}
+				for _, pr := range phi.Block().Preds {
+					if phi.Block().Dominates(pr) {
+						return true
+					}
+				}
+				return false
+			}
+			if isHdrPhi(v) {
+				return true
+			}
+			if bo, ok := v.(*ssa.BinOp); ok && bo.Op == token.ADD && isHdrPhi(bo.X) {
+				return true
+			}
+			// an index handed in by the caller (the helper writes one field of column i)
+			if par, ok := v.(*ssa.Parameter); ok && fn != emitRow && isIntType(par.Type()) {
+				return true
+			}
+			return false
+		}
+		judge := func(site *writeSite, data ssa.Value, conds []condFact) {
+			n++
+			var facts []constraint
+			flag := false
+			var cands []ssa.Value
+			for _, cf := range conds {
+				facts = append(facts, p.condConstraints(cf.Cond, cf.Val)...)
+				switch x := cf.Cond.(type) {
+				case *ssa.BinOp:
+					cands = append(cands, x.X, x.Y)
+				default:
+					if isBoolType(cf.Cond.Type()) {
+						if _, isCall := x.(*ssa.Call); !isCall {
+							flag = true
+						}
+					}
+				}
+			}
+			ok := false
+			for _, cv := range cands {
+				if counting(cv) && entails(facts, leq(linConst(1), p.linOf(cv), "")) {
+					ok = true
+				}
+			}
+			if !ok && cells != nil && fn == emitRow {
+				if entails(facts, leq(linConst(1), p.lenOf(cells), "")) {
+					ok = true
+				}
+			}
+			if !ok && flag {
+				r.Note("shape-unrecognised R05.4: a separator is written under a boolean flag in " + FuncName(fn) + "; whether a field precedes it is not evaluated")
+				return
+			}
+			r.Check("R05.4", FuncName(fn), site.Desc+": a separator is written only after a field of the same record", site.Call.Pos(), ok,
+				"nothing here says a field has been written yet (a row without cells): the record would begin with the separator, which readers take for an extra empty field")
+		}
+		wv := writerValues(fn)
+		for _, site := range writeSitesOf(fn, wv) {
+			if callee := site.Call.Common().StaticCallee(); callee != nil && funcPkgPath(callee) == pkgPath("csv") {
+				continue // judged in the helper itself
+			}
+			for _, a := range sinkArgs(site, wv) {
+				v := a
+				if sl, isSl := v.(*ssa.Slice); isSl {
+					if al, isAl := sl.X.(*ssa.Alloc); isAl {
+						for _, rr := range referrersOf(al) {
+							if ia, isIA := rr.(*ssa.IndexAddr); isIA {
+								for _, r3 := range referrersOf(ia) {
+									if st, isSt := r3.(*ssa.Store); isSt {
+										v = unwrap(st.Val, true)
+									}
+								}
+							}
+						}
+					}
+				}
+				base := expandConds(dominatingConds(site.Call.(ssa.Instruction).Block()))
+				if phi, isPhi := v.(*ssa.Phi); isPhi {
+					for k, e := range phi.Edges {
+						if leadingSep(e, 0) {
+							judge(site, e, append(append([]condFact(nil), base...), p.edgeConds(phi.Block().Preds[k], phi.Block())...))
+						}
+					}
+					continue
+				}
+				if leadingSep(v, 0) {
+					judge(site, v, base)
+				}
+			}
+		}
+	}
+	_ = n
 }
